@@ -379,6 +379,9 @@ func breakerModule() *module {
 		// (not MaxAllowedRtMs: for an error-count rule it has no effect and the module deliberately
 		// treats such rules as equal, keeping the old breaker and its rule object)
 		mk2("aCountBuckets", func(r *cb.Rule) { r.StatSlidingWindowBucketCount = 2 }),
+		// a bucket count that does not divide the interval (1000 ms): valid; the breaker uses one bucket, the
+		// rule stays what was loaded
+		mk2("aCountOddBuckets", func(r *cb.Rule) { r.StatSlidingWindowBucketCount = 3 }),
 	}
 	conv := func(rs []interface{}) []*cb.Rule {
 		out := make([]*cb.Rule, 0, len(rs))
@@ -397,7 +400,7 @@ func breakerModule() *module {
 	id := func(r base.SentinelRule) string { return label(specs, allFields(r.(*cb.Rule)), r.(*cb.Rule).Id) }
 	return &module{
 		Name: "circuitbreaker", Specs: specs, Resources: []string{"a", "b"},
-		Lists:    append(listsFor([]int{0, 1, 2}, 3, []int{4, 5, 6, 7, 8}, 9), []int{10}, []int{11}, []int{12}),
+		Lists:    append(listsFor([]int{0, 1, 2}, 3, []int{4, 5, 6, 7, 8}, 9), []int{10}, []int{11}, []int{12}, []int{13}),
 		Load:     func(rs []interface{}) (bool, error) { return cb.LoadRules(conv(rs)) },
 		LoadRes:  func(res string, rs []interface{}) (bool, error) { return cb.LoadRulesOfResource(res, conv(rs)) },
 		Clear:    cb.ClearRules,
